@@ -91,10 +91,9 @@ def hasDupNames : List Text → Bool
   | [] => false
   | x :: xs => xs.contains x || hasDupNames xs
 
-/-- a details dict: names are unique, an attachment called `reason` is text -/
+/-- a details dict: names are unique (an attachment called `reason` need not be text) -/
 def detailsOk (d : List (Text × Content)) : Bool :=
-  !hasDupNames (d.map (·.1)) &&
-  d.all fun p => !(p.1 == "reason".toList) || (match p.2 with | .text _ => true | _ => false)
+  !hasDupNames (d.map (·.1))
 
 /-- the argument forms a caller may use: `exc_info` or details for error/failure/expected failure, a reason
 or details for skip, nothing or details for success/unexpected success -/
@@ -566,7 +565,7 @@ def detailsToExc (d : Details) : Arg := .exc (.str (detailsToStr d (some traceba
 def detailsToReason (d : Details) : Text :=
   match lookup d reasonKey with
   | some (.text r) => r
-  | _ => detailsToStr d none     -- no `reason` (a non-text `reason` raises in `as_text`: outside the domain)
+  | _ => detailsToStr d none     -- no `reason`, or one that is not text (`as_text` raises `ValueError`, caught)
 
 def etodStep (I : Iface σ) (own : EtodOwn) (inner : σ) (c : Call) : EtodOwn × σ :=
   let fwdIf (b : Bool) : EtodOwn × σ := (own, if b then I.step inner c else inner)
@@ -600,7 +599,8 @@ def etodStep (I : Iface σ) (own : EtodOwn) (inner : σ) (c : Call) : EtodOwn ×
           (own, I.step inner (.add .success t a'))
   | .startTest _ => ({ own with tags := own.tags.push }, I.step inner c)
   | .stopTest _ => ({ own with tags := own.tags.pop }, I.step inner c)
-  | .startTestRun => ({ own with tags := {} }, if I.caps.startRun then I.step inner c else inner)
+  -- a new run: the adapter's own `_shouldStop` (used for targets without `shouldStop`) is cleared like `TestResult`'s
+  | .startTestRun => ({ own with tags := {}, shouldStop := false }, if I.caps.startRun then I.step inner c else inner)
   | .stopTestRun => fwdIf I.caps.startRun
   | .tags n g => if I.caps.tags then (own, I.step inner c) else ({ own with tags := own.tags.change n g }, inner)
   | .time _ => fwdIf I.caps.time
@@ -626,7 +626,8 @@ def tfrStep (I : Iface σ) (own : TfrOwn) (inner : σ) (c : Call) : TfrOwn × σ
   match c with
   | .add k t a =>
       -- `_stop_if_failfast()` after the block of an error / failure / unexpected success
-      ({ own with testTags := (0, 0), testStart := .none }, (tfrBlock own k t a ++ tfrStops own k).foldl I.step inner)
+      -- (the test's tag changes stay buffered until `stopTest`: a second outcome of the same test carries them too)
+      ({ own with testStart := .none }, (tfrBlock own k t a ++ tfrStops own k).foldl I.step inner)
   | .startTestRun =>
       ({ tt := ttStep own.tt c, testStart := .none, inTest := false, globalTags := (0, 0), testTags := (0, 0) },
        I.step inner c)
